@@ -767,8 +767,16 @@ static void mode_biz(int lo, int hi, int step, int kmax)
 					ev(kd_[R][wk]);
 					struct dt_ddur_s du = dt_ddiff(DT_DURBD, v, tv, 0);
 					if (du.dv != k) {
+						/* the recorded finding is: from a weekend day backwards, one business day short.  Anything else
+						 * from a weekend start (forwards, or off by another amount) is keyed apart so that it is not covered */
+						struct mkey *kk = kd_[R][wk];
+						if (wk && !(k < 0 && du.dv == k + 1)) {
+							static struct mkey *ko_[NREP];
+							if (!ko_[R]) { char kb[64]; sprintf(kb, "diffb %s weekend-other", repname[R]); ko_[R] = mk_get(kb); }
+							kk = ko_[R];
+						}
 						reptext(txt, R, r);
-						mism(kd_[R][wk], l, "%s '%s' (%s) to %04d-%02d-%02d: ddiff=%db (typ %d) but dadd used %+db", repname[R], txt,
+						mism(kk, l, "%s '%s' (%s) to %04d-%02d-%02d: ddiff=%db (typ %d) but dadd used %+db", repname[R], txt,
 						     wd_abbr[r[F_WD]], ROW(e)[F_Y], ROW(e)[F_M], ROW(e)[F_D], du.dv, du.durtyp, k);
 					}
 				}
